@@ -1,6 +1,6 @@
 """C11 — TxnTrace.tla (binding V over D-TXN)."""
 from vlib import dtxn
-LEVEL = "model_checking"
+LEVEL = "fault_enumeration"
 
 
 def run(ctx):
